@@ -23,7 +23,7 @@ theorem ser_kind : ∀ (s : Schema) (v : Val), hasType s v = true → kindOf (se
   | .internal _ _, v, h => by cases v <;> simp_all [hasType, ser, shape, kindOf]
   | .untagged alts, v, h => by
       cases v <;> simp_all [hasType, ser, shape]
-      rename_i i x; exact serAlt_kind alts i x h
+      rename_i i x; exact serAlt_kind alts i x h.1
 theorem serAlt_kind : ∀ (alts : Fields) (i : Nat) (v : Val), typedAlt alts i v = true → kindOf (serAlt alts i v) ∈ shapeAlts alts
   | .nil, _, _, h => by simp [typedAlt] at h
   | .cons _ _ s tl, i, v, h => by
